@@ -148,10 +148,14 @@ def run_jobs(jobs, nproc=None, timeout=None):
         return out
 
 
+JOB_BUDGET = [None]  # seconds of polynomial arithmetic per job; afterwards obligations come back undecided
+
+
 def _run_job(job):
     fn, args = job
     t0 = time.time()
     solver.STATS.update({"queries": 0, "time": 0.0})
+    T.DEADLINE[0] = (t0 + JOB_BUDGET[0]) if JOB_BUDGET[0] else None
     try:
         r = fn(*args)
     except Exception as e:
@@ -195,6 +199,14 @@ class Run:
         known_keys = [(k["property"], k["key"]) for k in self.known.get("findings", [])]
         new_vio = []
         printed_known = set()
+        seen_keys = set()
+        uniq = []
+        for v in vio:
+            if v["key"] in seen_keys:
+                continue
+            seen_keys.add(v["key"])
+            uniq.append(v)
+        vio = uniq
         for v in vio:
             hit = None
             for (p, key) in known_keys:
